@@ -147,7 +147,7 @@ def main():
             "kind_free_text": "one Rust binary, path-depends on /repo/{scpi,scpi-contrib,scpi-derive}; bounded exhaustive enumeration of inputs/programs/fault positions and stateright BFS over the real implementation in lock-step with reference models; built in two profiles (release, dbg = release + debug-assertions + overflow-checks)",
         }],
         "checks": checks,
-        "notes": "See DESIGN.md. known_findings.txt lists recorded findings (known:) and repaired defects (fixed:). seeded/ holds independently written property-breaking changes and which check catches each.",
+        "notes": "See DESIGN.md. known_findings.txt lists recorded findings (known:) and repaired defects (fixed:). seeded/ holds 200 independently written property-breaking changes and which check catches each; refactors/ holds 36 independently written behaviour-preserving changes (no check reports any); mutation/ holds the results of two mechanical mutation sweeps.",
         "not_applicable": na,
     }
     json.dump(m, open(os.path.join(ROOT, "MANIFEST.json"), "w"), indent=1)
